@@ -20,6 +20,11 @@ pub enum Kind {
     DecLzma2,
     /// .lzma header x memory limit around the need: 0 = need-1, 1 = need, 2 = need+1, 3 = 0, 4 = u32::MAX
     Limit(u8),
+    /// as Limit, but the header declares a size (size_sel: 0 = the data length, 1 = 1, 2 = dict - 1, 3 = dict + 1,
+    /// 4 = 0) and a preset dictionary may be supplied; which 5 = what the estimator says for a window of
+    /// min(size, dict), 6 = halfway between that and the need. An accepted reader is read to the end and must
+    /// stay inside the limit.
+    LimitSized { which: u8, size_sel: u8, preset: bool },
     /// estimator only, no instantiation (large dictionaries)
     EstimateOnly,
 }
@@ -90,7 +95,11 @@ impl Property for C17 {
             0 => Just(Kind::EncLzma2).boxed(),
             1 => Just(Kind::EncLzma1).boxed(),
             2 => prop_oneof![Just(Kind::DecLzma1), Just(Kind::DecLzma2)].boxed(),
-            3 => (0u8..5).prop_map(Kind::Limit).boxed(),
+            3 => prop_oneof![
+                (0u8..5).prop_map(Kind::Limit),
+                (0u8..7, 0u8..5, any::<bool>()).prop_map(|(which, size_sel, preset)| Kind::LimitSized { which, size_sel, preset }),
+            ]
+            .boxed(),
             _ => Just(Kind::EstimateOnly).boxed(),
         };
         let dict = if family >= 4 {
@@ -131,7 +140,7 @@ impl Property for C17 {
     }
 
     fn floors(_tier: Tier) -> Vec<(&'static str, f64)> {
-        vec![("encoder", 25.0), ("decoder", 10.0), ("limit", 10.0), ("estimate_only", 25.0), ("bt4", 20.0), ("big_dict", 10.0)]
+        vec![("encoder", 25.0), ("decoder", 10.0), ("limit", 5.0), ("limit_sized", 5.0), ("limit_sized_preset", 2.0), ("estimate_only", 25.0), ("bt4", 20.0), ("big_dict", 10.0)]
     }
 
     fn assumptions() -> Vec<&'static str> {
@@ -300,6 +309,88 @@ impl Property for C17 {
                     Ok(()) => {
                         if limit < need {
                             return Err(Failure::new("limit-not-enforced", format!("limit {limit} KiB < need {need} KiB (dict {}), reader was created; peak {peak} bytes", o.dict_size)));
+                        }
+                        Ok(())
+                    }
+                }
+            }
+            Kind::LimitSized { which, size_sel, preset } => {
+                obs.class("limit_sized");
+                if *preset {
+                    obs.class("limit_sized_preset");
+                }
+                let need = match lzma_get_memory_usage_by_props(o.dict_size, o.props()) {
+                    Ok(n) => n,
+                    Err(e) => return Err(Failure::new("estimator-error", e.to_string())),
+                };
+                let data = b"hello hello hello hello hello hello world";
+                let size: u64 = match size_sel {
+                    0 => data.len() as u64,
+                    1 => 1,
+                    2 => o.dict_size as u64 - 1,
+                    3 => o.dict_size as u64 + 1,
+                    _ => 0,
+                };
+                let small_need = lzma_get_memory_usage_by_props((size.min(o.dict_size as u64) as u32).max(4096), o.props()).unwrap_or(need);
+                let limit = match which {
+                    0 => need.saturating_sub(1),
+                    1 => need,
+                    2 => need.saturating_add(1),
+                    3 => 0,
+                    4 => u32::MAX,
+                    5 => small_need,
+                    _ => small_need + (need - small_need.min(need)) / 2,
+                };
+                let small = Opts {
+                    dict_size: 4096,
+                    ..o.clone()
+                };
+                let mut stream = encode_lzma(data, &small, None, &Framing::HeaderSized, &Plan::All)?;
+                stream[1..5].copy_from_slice(&o.dict_size.to_le_bytes());
+                stream[5..13].copy_from_slice(&size.to_le_bytes());
+                let pd: Vec<u8> = (0..300u32).map(|i| (i * 7) as u8).collect();
+                crate::alloc::reset_peak();
+                let before = crate::alloc::live();
+                let r = no_panic("new_mem_limit", || {
+                    let preset_dict = if *preset { Some(pd.as_slice()) } else { None };
+                    LZMAReader::new_mem_limit(stream.as_slice(), limit, preset_dict).map(|mut r| {
+                        // use the reader: whatever it decodes, it has to stay inside the limit
+                        let mut sink = [0u8; 64];
+                        let mut n = 0usize;
+                        while let Ok(k) = r.read(&mut sink) {
+                            n += k;
+                            if k == 0 || n > 4096 {
+                                break;
+                            }
+                        }
+                    })
+                })?;
+                let peak = crate::alloc::peak().saturating_sub(before) as u64;
+                match r {
+                    Err(e) => {
+                        if limit >= need {
+                            return Err(Failure::new("limit-spurious-refusal", format!("limit {limit} KiB >= need {need} KiB but: {e}")));
+                        }
+                        if e.kind() != std::io::ErrorKind::OutOfMemory {
+                            return Err(Failure::new("limit-wrong-error-kind", format!("{:?}: {e}", e.kind())));
+                        }
+                        if peak >= (64 << 10) {
+                            return Err(Failure::new("limit-allocated-before-refusing", format!("{peak} bytes allocated before the OutOfMemory error")));
+                        }
+                        Ok(())
+                    }
+                    Ok(()) => {
+                        if peak > kib(limit) {
+                            return Err(Failure::new(
+                                "limit-exceeded",
+                                format!("limit {limit} KiB, header dict {} size {size} preset {preset}: the reader allocated {peak} bytes", o.dict_size),
+                            ));
+                        }
+                        if limit < need {
+                            return Err(Failure::new(
+                                "limit-not-enforced",
+                                format!("limit {limit} KiB < need {need} KiB (dict {}, declared size {size}, preset {preset}), reader was created; peak {peak} bytes", o.dict_size),
+                            ));
                         }
                         Ok(())
                     }
